@@ -13,3 +13,13 @@ func verifPopBeforeWait(q *rpcQueue) {
 		(*f)(q)
 	}
 }
+
+// verifPushedHook, when set, is told the outcome of every rpcQueue push
+// (nil: accepted, ErrQueueFull: refused) with the queue mutex held.
+var verifPushedHook atomic.Pointer[func(q *rpcQueue, rpc *RPC, urgent bool, err error)]
+
+func verifPushed(q *rpcQueue, rpc *RPC, urgent bool, err error) {
+	if f := verifPushedHook.Load(); f != nil {
+		(*f)(q, rpc, urgent, err)
+	}
+}
